@@ -163,6 +163,12 @@ type Converter interface {
 		f4b[pk+"/input.go"] = "package " + pk + "\n\ntype In struct{ V int }\ntype Out struct{ V int }\n\n// goverter:converter\n// goverter:nonsense" + strings.ToUpper(pk) + " x\ntype Converter interface {\n\tConvert(source In) Out\n}\n"
 	}
 	ps = append(ps, c09Prog{name: "f_parse", pkgs: []string{"./q1", "./q2", "./q3"}, fails: true, files: f4b, note: "unknown settings on converters in three packages"})
+	// F4b2: the same with three packages that share their NAME (different import paths)
+	f4b2 := map[string]string{}
+	for _, pk := range []string{"s1", "s2", "s3"} {
+		f4b2[pk+"/conv/input.go"] = "package conv\n\ntype In struct{ V int }\ntype Out struct{ V int }\n\n// goverter:converter\n// goverter:nonsense" + strings.ToUpper(pk) + " x\ntype Converter interface {\n\tConvert(source In) Out\n}\n"
+	}
+	ps = append(ps, c09Prog{name: "f_parse_samename", pkgs: []string{"./s1/conv", "./s2/conv", "./s3/conv"}, fails: true, files: f4b2, note: "unknown settings on converters in three packages with one package name"})
 	// F4c: two output files that cannot be rendered
 	f4c := map[string]string{}
 	for _, pk := range []string{"r1", "r2", "r3"} {
